@@ -34,7 +34,10 @@ class _WF1:
 
 CLS = {
     'WorkchainFormat0': _WF0, 'WorkchainFormat1': _WF1, 'WcSplitMergeTimings': Cf.WcSplitMergeTimings, 'WorkchainDescr': Cf.WorkchainDescr,
-    'ConsensusConfig': Cf.ConsensusConfig, 'SuspendedAddressList': Cf.SuspendedAddressList, 'OracleBridgeParams': Cf.OracleBridgeParams,
+    'ConsensusConfig': Cf.ConsensusConfig,
+    'ConfigParam0': Cf.ConfigParam0, 'ConfigParam5': Cf.ConfigParam5, 'ConfigParam6': Cf.ConfigParam6, 'ConfigParam7': Cf.ConfigParam7,
+    'ConfigParam9': Cf.ConfigParam9, 'ConfigParam12': Cf.ConfigParam12, 'ConfigParam15': Cf.ConfigParam15, 'ConfigParam16': Cf.ConfigParam16,
+    'ConfigParam17': Cf.ConfigParam17, 'ConfigParam18': Cf.ConfigParam18, 'ConfigParam31': Cf.ConfigParam31, 'ConfigParam32': Cf.ConfigParam32, 'SuspendedAddressList': Cf.SuspendedAddressList, 'OracleBridgeParams': Cf.OracleBridgeParams,
     'JettonBridgePrices': Cf.JettonBridgePrices, 'JettonBridgeParams': Cf.JettonBridgeParams,
     'StorageUsedShort': A.StorageUsedShort, 'StorageUsed': A.StorageUsed, 'StorageInfo': A.StorageInfo, 'AccStatusChange': T.AccStatusChange,
     'AccountStatus': A.AccountStatus, 'TrStoragePhase': T.TrStoragePhase, 'TrCreditPhase': T.TrCreditPhase, 'TrBouncePhase': T.TrBouncePhase,
